@@ -254,19 +254,33 @@ def rule_off(ctx):
     tw = p.method("Throttle", "wait")
     sl = [a for a in walk_no_nested(tw) if isinstance(a, ast.Await)]
     ok = bool(sl)
+    unknown = False
     for a in sl:
-        g = [(src(t), pol) for t, pol in all_guards(p, a, tw)]
-        need = [("self._limit is not None", True), ("self._limit > 0", True), ("self._start is not None", True)]
-        ok = ok and all(x in g for x in need)
-    ctx.ob("C15.OFF", tw, "Throttle.wait sleeps only when a positive limit is set and accounting has started", ok,
-           "Throttle.wait may sleep with no limit / before the first accounted I/O", construct="off:throttle wait guard")
+        for lim in (None, 0, 10):
+            for st in (None, 1.0):
+                r = reachable_under(p, a, tw, {"self._limit": lim, "self._start": st})
+                if r is None:
+                    unknown = True
+                elif r != (lim == 10 and st == 1.0):
+                    ok = False
+    if unknown:
+        raise Inconclusive("C15.OFF: guard of Throttle.wait's sleep is outside the table evaluator's vocabulary")
+    ctx.ob("C15.OFF", tw, "Throttle.wait sleeps exactly when a positive limit is set and accounting has started (table over limit in {None,0,10} x start in {None,1.0})", ok,
+           "Throttle.wait may sleep with no limit / before the first accounted I/O (or never sleeps)", construct="off:throttle wait guard")
     ta = p.method("Throttle", "append")
-    muts = [n for n in walk_no_nested(ta) if isinstance(n, (ast.Assign, ast.AugAssign))]
+    muts = [n for n in walk_no_nested(ta) if isinstance(n, (ast.Assign, ast.AugAssign)) and any(isinstance(t, ast.Attribute) for t in assign_targets(n))]
     ok = bool(muts)
     for n in muts:
-        g = [(src(t), pol) for t, pol in all_guards(p, n, ta)]
-        ok = ok and ("self._limit is not None", True) in g and ("self._limit > 0", True) in g
-    ctx.ob("C15.OFF", ta, "Throttle.append accounts nothing when the limit is None or 0", ok, "Throttle.append accounts although no limit is set", construct="off:append guard")
+        for lim in (None, 0):
+            r = reachable_under(p, n, ta, {"self._limit": lim, "self._start": None, "start": 5.0, "self.reset_rate": 10, "self._sum": 0})
+            if r is None or r:
+                ok = False
+    acc = [n for n in muts if isinstance(n, ast.AugAssign) and isinstance(n.op, ast.Add) and src(n.target) == "self._sum"]
+    for n in acc:
+        r = reachable_under(p, n, ta, {"self._limit": 10, "self._start": 1.0, "start": 5.0, "self.reset_rate": 10, "self._sum": 0})
+        if r is not True:
+            ok = False
+    ctx.ob("C15.OFF", ta, "Throttle.append accounts nothing when the limit is None or 0, and accounts when a limit is set", ok, "Throttle.append accounts although no limit is set (or not at all)", construct="off:append guard")
 
 
 def _anc(p, n):
@@ -282,10 +296,16 @@ def rule_dim(ctx):
     ms = p.methods("Throttle")
     DIM = {"self._limit": "rate", "self.reset_rate": "time", "self._start": "time", "self._sum": "bytes", "start": "time", "now": "time", "end": "time", "value": "rate"}
 
+    cur_fn = [None]
+
     def dim(e):
         s = src(e)
         if s in DIM:
             return DIM[s]
+        if isinstance(e, ast.Name) and cur_fn[0] is not None:
+            d_ = unique_def(cur_fn[0], e.id)
+            if d_ is not None:
+                return dim(d_)
         if isinstance(e, ast.Constant):
             return "zero" if e.value == 0 else ("none" if e.value is None else "num")
         if isinstance(e, ast.Call):
@@ -324,6 +344,7 @@ def rule_dim(ctx):
     n_inst = 0
     for name in ("wait", "append"):
         fn = ms[name]
+        cur_fn[0] = fn
         for n in walk_no_nested(fn):
             if isinstance(n, ast.Compare) and len(n.ops) == 1 and not isinstance(n.ops[0], (ast.Is, ast.IsNot)):
                 n_inst += 1
@@ -355,7 +376,8 @@ def rule_dim(ctx):
               (isinstance(n, ast.Assign) and src(n.targets[0]) == "self._sum")]
     ok = len(resets) == 1 and isinstance(resets[0], ast.AugAssign) and not any(isinstance(c, ast.Call) and isinstance(c.func, ast.Name) and c.func.id in ("max", "min", "abs") for c in ast.walk(resets[0].value))
     if ok:
-        v = resets[0].value
+        v = deep_expand(p, resets[0].value, ap)
+        cur_fn[0] = ap
         inner = v.args[0] if isinstance(v, ast.Call) and isinstance(v.func, ast.Name) and v.func.id == "round" else v
         ok = isinstance(inner, ast.BinOp) and isinstance(inner.op, ast.Mult) and {src(inner.left), src(inner.right)} == {"(start - self._start)", "self._limit"} or \
             (isinstance(inner, ast.BinOp) and isinstance(inner.op, ast.Mult) and {dim(inner.left), dim(inner.right)} == {"time", "rate"})
@@ -366,12 +388,24 @@ def rule_dim(ctx):
     ok = all(src(n.value) == "start" for n in rs) and len(rs) == 2
     ctx.ob("C15.DIM", ap, "the window start is (re)set to the I/O's own start time", ok, "Throttle.append sets the window start to something else than the I/O's start", construct="Throttle.append:start")
     tw = ms["wait"]
-    ends = [n for n in walk_no_nested(tw) if isinstance(n, ast.Assign) and isinstance(n.targets[0], ast.Name) and n.targets[0].id == "end"]
-    ok = len(ends) == 1 and src(ends[0].value) == "self._start + self._sum / self._limit"
-    ctx.ob("C15.DIM", tw, "Throttle.wait: end = start + sum / limit", ok, f"Throttle.wait computes end as `{src(ends[0].value) if ends else None}`", construct="Throttle.wait:end")
-    sl = [c for c in walk_no_nested(tw) if isinstance(c, ast.Call) and dotted(c.func) == "asyncio.sleep"]
-    ok = len(sl) == 1 and src(sl[0].args[0]) in ("max(0, end - now)", "max(end - now, 0)")
-    ctx.ob("C15.DIM", tw, "Throttle.wait sleeps max(0, end - now)", ok, f"Throttle.wait sleeps `{src(sl[0].args[0]) if sl else None}`", construct="Throttle.wait:sleep")
+    sl = [c_ for c_ in walk_no_nested(tw) if isinstance(c_, ast.Call) and dotted(c_.func) == "asyncio.sleep"]
+    ok = len(sl) == 1 and len(sl[0].args) == 1
+    if ok:
+        a = expand(p, sl[0].args[0], tw)
+        ok = isinstance(a, ast.Call) and isinstance(a.func, ast.Name) and a.func.id == "max" and len(a.args) == 2
+        if ok:
+            zero = [x for x in a.args if isinstance(x, ast.Constant) and x.value == 0]
+            diff = [x for x in a.args if not (isinstance(x, ast.Constant) and x.value == 0)]
+            ok = len(zero) == 1 and len(diff) == 1
+            if ok:
+                d = expand(p, diff[0], tw)
+                ok = isinstance(d, ast.BinOp) and isinstance(d.op, ast.Sub)
+                if ok:
+                    end, now = expand(p, d.left, tw), expand(p, d.right, tw)
+                    ok = isinstance(now, ast.Call) and (dotted(now.func) or "") == "_now" and isinstance(end, ast.BinOp) and isinstance(end.op, ast.Add) \
+                        and {src(end.left), src(end.right)} == {"self._start", "self._sum / self._limit"}
+    ctx.ob("C15.DIM", tw, "Throttle.wait sleeps max(0, (start + sum / limit) - now)", ok,
+           f"Throttle.wait sleeps `{src(sl[0].args[0]) if sl and sl[0].args else None}`, not max(0, start + sum/limit - now)", construct="Throttle.wait:sleep")
     st = [f for f in p.cls("Throttle").body if isinstance(f, FuncT) and f.name == "limit" and any(last_attr(d) == "setter" for d in f.decorator_list)]
     if st:
         vals = {src(n.targets[0]): src(n.value) for n in walk_no_nested(st[0]) if isinstance(n, ast.Assign)}
